@@ -100,8 +100,9 @@ static void continuous_families(unsigned long long& unit)
 	}
 	// normal
 	for(double mu : {0.0, -3.0, 1e3})
-		for(double sg : {1e-3, 1.0, 50.0})
+		for(double sg : {1e-3, 1.0, 50.0, 1e-7, 1e6})
 		{
+			if(sg == 1e-7 && mu == 1e3) continue;	// 1e3 +- 1e-7 has only 2^20 doubles per sigma: the grid of quarter sigmas is still exact enough, but skip the coarsest case
 			if(!mc::mine(unit++)) continue;
 			std::vector<double> g;
 			for(int i = -160; i <= 160; i++) g.push_back(mu + sg * (i / 4.0));
